@@ -43,6 +43,8 @@ func c12Pairs() []pairScenario {
 		{"P8:a+b with a failing select|a", `a + on (l) group_left b`, `a{l="1"}`, r2, r2, 2, 1, 2, []mstore.Fault{{Kind: "select", Sel: `{__name__="a"}@-290000,40000`, Series: -1, Nth: 0, Action: "error"}}},
 		// delay bounding: one deviation stalls a thread across many hand-offs of the others
 		{"P10:sum by (l)(sum by (l,m)(a)) 40 steps|sum by (l)(a)/delays", `sum by (l) (sum by (l, m) (a))`, `sum by (l) (a)`, core.Range(10000, 30000, 40), r2, 2, 1, 1, nil},
+		// the same text with @ over two different windows (anything cached per query text shows)
+		{"P12:a@end()+a|same text, later window", `a @ end() + a`, `a @ end() + a`, r2, core.Range(70000, 30000, 2), 2, 1, 1, nil},
 		{"P11:a 12 steps|sum by (l)(a) 12 steps/delays", `a`, `sum by (l) (a)`, r12, r12, 2, 1, 2, nil},
 		{"P9:sum by (l)(a) with a failing iterator|b", `sum by (l) (a)`, `b`, r2, r2, 2, 1, 2, []mstore.Fault{{Kind: "seek", Series: 1, Nth: 0, Action: "error"}}},
 	}
@@ -121,6 +123,7 @@ func init() {
 				// remote parts answered by the Prometheus fallback of the remote engines, next to
 				// other Prometheus evaluations (its point slices are pooled process-wide)
 				mk(`sum by (l) (round(a))`, w, true, 2), mk(`round(a)`, w, true, 2), mk(`max by (l) (round(rate(a[1m])))`, core.Range(0, 15000, 45), true, 2), mk(`round(b)`, w, true, 0),
+				mk(`a @ end() + a`, core.Range(10000+int64(i)*30000, 30000, 12), false, 0), mk(`sum(a @ start())`, core.Range(int64(i)*45000, 45000, 5), false, 0),
 				mk(`histogram_quantile(0.5, h_bucket)`, w, false, 0), mk(`histogram_quantile(0.9, rate(h_bucket[1m]))`, w, false, 0))
 		}
 		// every plan shape of the fault checks, once
@@ -131,7 +134,9 @@ func init() {
 			jobs = append(jobs, mk(`a`, w, false, 0))
 		}
 		for i := range jobs {
-			if i%12 == 7 {
+			// never a fallback job: Query.Cancel of the Prometheus engine reads a field that its
+			// Exec writes without synchronisation (not the code under test)
+			if i%12 == 7 && !jobs[i].cs.O.Fallback {
 				jobs[i].cancel = true
 			}
 		}
